@@ -9,6 +9,7 @@ package backend
 import (
 	"fmt"
 	"net"
+	"sync/atomic"
 	"time"
 
 	"google.golang.org/grpc"
@@ -23,10 +24,21 @@ import (
 
 // Resolver knows vf/types.proto and the given dynamic files and falls back to
 // the global registry (google/api/*, google/protobuf/*, reflection protos).
-type Resolver struct{ Files []protoreflect.FileDescriptor }
+type Resolver struct {
+	Files []protoreflect.FileDescriptor
+	// Switch, when set, overrides Files with its current content (a
+	// back-end whose descriptors change between registrations).
+	Switch *atomic.Value // []protoreflect.FileDescriptor
+}
 
 func (r Resolver) all() []protoreflect.FileDescriptor {
-	return append([]protoreflect.FileDescriptor{vschema.TypesFile()}, r.Files...)
+	files := r.Files
+	if r.Switch != nil {
+		if v, ok := r.Switch.Load().([]protoreflect.FileDescriptor); ok && v != nil {
+			files = v
+		}
+	}
+	return append([]protoreflect.FileDescriptor{vschema.TypesFile()}, files...)
 }
 
 func (r Resolver) FindFileByPath(p string) (protoreflect.FileDescriptor, error) {
@@ -102,6 +114,12 @@ type Backend struct {
 	Tag  string
 	Addr string
 	GS   *grpc.Server
+	// files served by reflection can be replaced at run time
+	files atomic.Value
+	// ReflHook, when set before a registration, is called for every request
+	// received on a reflection stream (n counts from 0 per back-end).
+	ReflHook atomic.Value // func(n int)
+	reflN    int64
 	// CC is the connection handed to larking.RegisterConn; Direct is a
 	// separate connection for the harness's own direct calls.
 	CC     *grpc.ClientConn
@@ -125,24 +143,35 @@ func Start(tag string, withReflection bool, svcs ...Svc) (*Backend, error) {
 type delayed struct {
 	rpb.ServerReflectionServer
 	d time.Duration
+	b *Backend
 }
 
 type delayedStream struct {
 	rpb.ServerReflection_ServerReflectionInfoServer
 	d time.Duration
+	b *Backend
 }
 
 func (s delayedStream) Recv() (*rpb.ServerReflectionRequest, error) {
 	m, err := s.ServerReflection_ServerReflectionInfoServer.Recv()
 	if err == nil {
 		time.Sleep(s.d)
+		if s.b != nil {
+			if h, ok := s.b.ReflHook.Load().(func(int)); ok && h != nil {
+				h(int(atomic.AddInt64(&s.b.reflN, 1) - 1))
+			}
+		}
 	}
 	return m, err
 }
 
 func (d delayed) ServerReflectionInfo(st rpb.ServerReflection_ServerReflectionInfoServer) error {
-	return d.ServerReflectionServer.ServerReflectionInfo(delayedStream{st, d.d})
+	return d.ServerReflectionServer.ServerReflectionInfo(delayedStream{st, d.d, d.b})
 }
+
+// SetFiles replaces the file descriptors the back-end's reflection service
+// hands out (the served implementation does not change).
+func (b *Backend) SetFiles(files ...protoreflect.FileDescriptor) { b.files.Store(files) }
 
 // StartDelayed is Start with a delay per reflection request.
 func StartDelayed(tag string, withReflection bool, reflDelay time.Duration, svcs ...Svc) (*Backend, error) {
@@ -164,19 +193,15 @@ func StartDelayed(tag string, withReflection bool, reflDelay time.Duration, svcs
 			files = append(files, s.SD.ParentFile())
 		}
 	}
+	b := &Backend{Tag: tag, Addr: lis.Addr().String(), GS: gs, lis: lis}
 	if withReflection {
 		rs := reflection.NewServer(reflection.ServerOptions{
 			Services:           gs,
-			DescriptorResolver: Resolver{Files: files},
+			DescriptorResolver: Resolver{Files: files, Switch: &b.files},
 			ExtensionResolver:  protoregistry.GlobalTypes,
 		})
-		if reflDelay > 0 {
-			rpb.RegisterServerReflectionServer(gs, delayed{rs, reflDelay})
-		} else {
-			rpb.RegisterServerReflectionServer(gs, rs)
-		}
+		rpb.RegisterServerReflectionServer(gs, delayed{rs, reflDelay, b})
 	}
-	b := &Backend{Tag: tag, Addr: lis.Addr().String(), GS: gs, lis: lis}
 	go gs.Serve(lis)
 	if b.CC, err = dial(b.Addr); err != nil {
 		b.Close()
